@@ -48,6 +48,8 @@ class Baton:
         self.atom_k = sched.get("k", 1)
         self.site_hits = {}
         self.return_to = None
+        self._pub_cache = {}
+        self.after_pub = [False] * n             # per client: the previous line of this client was a publication site
         self.literal = {}
         self.first = sched.get("first")
         if self.mode == "literal":
@@ -60,6 +62,7 @@ class Baton:
                 elif kind == "f":
                     self.literal[("f", ent[1])] = ent[2]
         self.next_obj = [None] * n               # per client: object (handle) of the operation it will start next
+        self.next_kind = [None] * n              # ... and its kind
         self.cur_op = [None] * n                 # per client: id of the op in flight
         self.local_e = [0] * n                   # per client: pre-emption points seen inside it
         # instrumentation for reach probes
@@ -113,7 +116,42 @@ class Baton:
         self.sems[to].release()
 
     # ---------------------------------------------------------------- yield points
-    def yield_point(self, cid, site, is_op=False, weight=1.0):
+    _PUB_RE = None
+
+    def is_publication(self, fn, lineno):
+        """Does this source line store into shared state (attribute / item assignment, append/extend/update ...)?
+        Decided from the source text, cached per (file, line)."""
+        key = (fn, lineno)
+        v = self._pub_cache.get(key)
+        if v is None:
+            import re
+            import linecache
+            if Baton._PUB_RE is None:
+                Baton._PUB_RE = re.compile(r"(\bself(\.\w+)+\s*(\[[^\]]*\])?\s*[-+|&^]?=[^=])|(\w\s*\[[^\]]*\]\s*[-+|&^]?=[^=])|"
+                                           r"(\.(append|extend|insert|pop|remove|update|setdefault|add|clear)\()|(\bglobal\b)")
+            line = linecache.getline(fn, lineno)
+            v = bool(Baton._PUB_RE.search(line))
+            self._pub_cache[key] = v
+        return v
+
+    def _pick_visitor(self, cid, others):
+        """Prefer a visitor whose operation (in flight, or next to start) is on the SAME object as the victim's -
+        that is where an atomicity violation can show - and among those one about to run the same KIND of request."""
+        mine = self.op_in_flight[cid]
+        same = [c for c in others
+                if mine is not None and mine[1] is not None and
+                ((self.op_in_flight[c] is not None and self.op_in_flight[c][1] == mine[1]) or self.next_obj[c] == mine[1])]
+        twin = [c for c in same if ((self.op_in_flight[c] is not None and self.op_in_flight[c][0] == mine[0]) or
+                                    self.next_kind[c] == mine[0])]
+        if twin and self.rng.random() < 0.7:
+            self._probe("visitor_same_object_same_kind")
+            return self.rng.choice(twin)
+        if same and self.rng.random() < 0.8:
+            self._probe("visitor_same_object")
+            return self.rng.choice(same)
+        return self.rng.choice(others)
+
+    def yield_point(self, cid, site, is_op=False, weight=1.0, src=None):
         if self.cap_hit:
             return
         self.E += 1
@@ -140,6 +178,31 @@ class Baton:
                     for c, o in enumerate(self.op_in_flight) if c != cid and not self.done[c])
                 pr = self.p_op if is_op else ((self.p if weight > 1.0 else self.p / 4) if hot else 0.004)
                 fire = self.rng.random() < pr
+            elif pol == "publish":
+                # atomicity tests placed around stores into shared state: at the line that publishes (before it runs)
+                # and at the line after it, for the first k executions of that line by this client; __init__ frames
+                # are skipped (the object under construction is not shared yet)
+                if self.return_to is not None and is_op and self.return_to[0] != cid:
+                    back = self.return_to[0]
+                    self.return_to = None
+                    if not self.done[back]:
+                        self._switch(cid, back, site)
+                        self.sems[cid].acquire()
+                        return
+                elif self.return_to is None and not is_op and src is not None and src[2] != "__init__":
+                    pub = self.is_publication(src[0], src[1])
+                    hit = pub or self.after_pub[cid]
+                    self.after_pub[cid] = pub
+                    if hit:
+                        key = (cid, site)
+                        nh = self.site_hits.get(key, 0) + 1
+                        self.site_hits[key] = nh
+                        if nh <= self.atom_k:
+                            others = self._runnable(exclude=cid)
+                            if others:
+                                to = self._pick_visitor(cid, others)
+                                self.return_to = (cid,)
+                                self._probe("publication_site_tests")
             elif pol == "atomic":
                 if self.return_to is not None and is_op and self.return_to[0] != cid:
                     # the visiting client completed an operation: hand the baton back
@@ -158,16 +221,7 @@ class Baton:
                         if n == self.atom_k:
                             others = self._runnable(exclude=cid)
                             if others:
-                                # prefer a visitor whose operation (in flight, or next to start) is on the SAME
-                                # object as the victim's: that is where an atomicity violation can show
-                                mine = self.op_in_flight[cid]
-                                same = [c for c in others
-                                        if mine is not None and mine[1] is not None and
-                                        ((self.op_in_flight[c] is not None and self.op_in_flight[c][1] == mine[1]) or
-                                         self.next_obj[c] == mine[1])]
-                                to = self.rng.choice(same) if same and self.rng.random() < 0.8 else self.rng.choice(others)
-                                if same:
-                                    self._probe("atomicity_tests_same_object")
+                                to = self._pick_visitor(cid, others)
                                 self.return_to = (cid,)
                                 self._probe("atomicity_tests")
             elif pol == "sparse":
@@ -229,7 +283,8 @@ class Baton:
                 return None
             sched.line_events += 1
             fn = code.co_filename
-            sched.yield_point(cid, "%s:%d" % (os.path.basename(fn), lineno), weight=weights.get(fn, 1.0))
+            sched.yield_point(cid, "%s:%d" % (os.path.basename(fn), lineno), weight=weights.get(fn, 1.0),
+                              src=(fn, lineno, code.co_name))
             return None
 
         def on_instr(code, offset):
